@@ -23,22 +23,23 @@ CONSTANTS MaxDefiners,     \* bound on the number of files defining "n"
 VARIABLES stage, case, vws, vix
 vars == <<stage, case, vws, vix>>
 
-MCFiles == {"c0", "c1", "c2", "cs", "u", "o", "m", "h0", "h1", "h2", "hh", "pl", "tp", "t0", "t1"}
-MCDirs  == {"R", "Ra", "Rab", "Rs", "P", "T"}
+MCFiles == {"c0", "c1", "c2", "cs", "u", "o", "m", "h0", "h1", "h2", "hh", "pl", "tp", "tp2", "t0", "t1"}
+MCDirs  == {"R", "Ra", "Rab", "Rs", "P", "T", "T2"}
 MCDirOf == [f \in MCFiles |->
               CASE f \in {"c0", "h0", "t0"} -> "R"
                 [] f \in {"c1", "h1", "hh", "t1"} -> "Ra"
                 [] f \in {"c2", "h2", "u", "o", "m"} -> "Rab"
                 [] f = "cs" -> "Rs"
                 [] f = "pl" -> "P"
-                [] f = "tp" -> "T"]
+                [] f = "tp" -> "T"
+                [] f = "tp2" -> "T2"]
 MCParentOf == [d \in MCDirs |->
               CASE d = "Rab" -> "Ra" [] d = "Ra" -> "R" [] d = "Rs" -> "R" [] OTHER -> "NODIR"]
 MCRoleOf == [f \in MCFiles |->
               CASE f \in {"c0", "c1", "c2", "cs"} -> "conftest"
                 [] f \in {"u", "o", "t0", "t1"} -> "test"
                 [] f = "pl" -> "plugin"
-                [] f = "tp" -> "third"
+                [] f \in {"tp", "tp2"} -> "third"
                 [] OTHER -> "module"]
 
 Names == {"n", "w", "x"}
@@ -66,7 +67,9 @@ MCLevelsSmall == [l \in 0..2 |-> CASE l = 0 -> {"absent", "def", "star"}
                                    [] l = 2 -> {"absent", "irrelevant", "def", "override", "star", "imp"}]
 MCSameKinds == {"none", "def", "def2", "override"}
 MCExtraAll  == SUBSET {"cs", "o", "m", "pl", "tp"}
-MCExtraFew  == {{}, {"cs"}, {"pl", "tp"}}
+\* {"tp", "tp2"}: TWO installed plugins provide the name (on different lines): no winner is named, but every feature must
+\* pick the same one
+MCExtraFew  == {{}, {"cs"}, {"pl", "tp"}, {"tp", "tp2"}}
 MCUseKinds  == {"tp", "fp", "um", "uc", "pm", "ip"}
 MCUseTP     == {"tp", "fp"}
 MCUFiles    == {"u", "c2"}
@@ -139,7 +142,8 @@ WsOf(c) ==
           [] f = "pl" -> IF "pl" \in c.ex THEN Module(<<DefN>>)
                          ELSE IF "plo" \in c.ex THEN Module(<<OverN>>) ELSE Absent
           [] f \in {"t0", "t1"} -> IF ExtraUsers THEN Module(<<Test("test_t", <<"n">>)>>) ELSE Absent
-          [] f = "tp" -> IF "tp" \in c.ex THEN Module(<<DefN>>) ELSE Absent]
+          [] f = "tp" -> IF "tp" \in c.ex THEN Module(<<DefN>>) ELSE Absent
+          [] f = "tp2" -> IF "tp2" \in c.ex THEN Module(<<PlainDef("x", <<>>), DefN>>) ELSE Absent]
 
 Definers(ws) == { f \in MCFiles : ws[f].present /\ DefsIn(ws, f, "n") # {} }
 Present(ws) == { f \in MCFiles : ws[f].present }
